@@ -20,6 +20,12 @@ use serde_derive::Serialize;
 
 const SMALL_MAX_LEN: usize = 3 * size_of::<usize>() - 2;
 
+/// Verification hook: the private inline capacity.
+#[cfg(feature = "isographlabs_isograph_verif")]
+pub fn verif_small_max_len() -> usize {
+    SMALL_MAX_LEN
+}
+
 /// A SmallBytes is 3 pointer-sized words (the same size as a vec);
 /// one byte is used for the enum tag and one is used for the length so
 /// the longest string that can be stored inline is 2 bytes shorter
